@@ -152,8 +152,37 @@ func (r *Run) returnsField(fi *prog.FuncInfo, field *types.Var) bool {
 		}
 		if ret, isRet := nd.(*ast.ReturnStmt); isRet {
 			n++
-			if len(ret.Results) != 1 || prog.SelField(fi.Pkg.TypesInfo, ret.Results[0]) != field {
+			switch {
+			case len(ret.Results) == 1 && prog.SelField(fi.Pkg.TypesInfo, ret.Results[0]) == field:
+			case len(ret.Results) == 0 && namedResultHolds(fi, field):
+				// `snap = l.tables; ...; return`: the single named result, assigned the field once
+			default:
 				ok = false
+			}
+		}
+		return true
+	})
+	return ok && n > 0
+}
+
+// namedResultHolds: fi has exactly one named result and every assignment to it stores field.
+func namedResultHolds(fi *prog.FuncInfo, field *types.Var) bool {
+	rl := fi.Decl.Type.Results
+	if rl == nil || len(rl.List) != 1 || len(rl.List[0].Names) != 1 {
+		return false
+	}
+	info := fi.Pkg.TypesInfo
+	res := info.Defs[rl.List[0].Names[0]]
+	n, ok := 0, true
+	ast.Inspect(fi.Decl.Body, func(nd ast.Node) bool {
+		if as, isAs := nd.(*ast.AssignStmt); isAs {
+			for i, l := range as.Lhs {
+				if prog.IdentObjPlain(info, l) == res {
+					n++
+					if len(as.Rhs) != len(as.Lhs) || prog.SelField(info, as.Rhs[i]) != field {
+						ok = false
+					}
+				}
 			}
 		}
 		return true
